@@ -107,6 +107,13 @@ func PickProposer(r *replica.Replica) int {
 			return k
 		}
 	}
+	// god-only mode: the god address of the *state* proposes (it may have been handed over)
+	god := r.App.State.GodAddress()
+	for k := 0; k <= NEW2; k++ {
+		if A(k) == god {
+			return k
+		}
+	}
 	return r.Opts.God
 }
 
